@@ -557,6 +557,14 @@ def scale_tok(tok, k):
     return tok
 
 
+def q_tok(tok):
+    """Output<f> token -> Output<q> token in millimetres"""
+    if tok.startswith("S@"):
+        _, t, v = tok.split("@", 2)
+        return "S@%s@Q:%s:1,0" % (t, v)
+    return tok
+
+
 def gen_C04(rng, tier):
     L = []
     rel = []
@@ -576,6 +584,9 @@ def gen_C04(rng, tier):
         k = rng.randint(-8, 8)
         rel.append(("scale", ia, len(L), k))
         L.append("ss pid %s %s %s %s %s" % (f2h(h2f(sp) * 2.0 ** k), kp, ki, kd, " ".join(scale_tok(e, k) for e in evs)))
+        # the same controller assembled from the crate's own streams (examples/pid.rs wiring), same history
+        rel.append(("composed", ia, len(L), None))
+        L.append("ss spid %s %s %s %s %s" % (sp, kp, ki, kd, " ".join(q_tok(e) for e in evs)))
     RELATIONS["C04"] = rel
     return L
 
@@ -589,6 +600,20 @@ def oracle_C04(lines, impl):
         if kind == "shift":
             if [shift_tok(get_part(t), extra) for t in A] != [get_part(t) for t in B] or [t.split("/")[0] for t in A] != [t.split("/")[0] for t in B]:
                 bad.append((lines[ia], "output changed under a constant shift of all timestamps by %d" % extra))
+        elif kind == "composed":
+            evs = lines[ia].split(" ")[6:]
+            for e, ta, tb in zip(evs, A, B):
+                if not e.startswith("S@"):
+                    continue        # at absent inputs the assembled controller reports FromNone by design
+                ga, gb = get_part(ta), get_part(tb)
+                if ga == gb:
+                    continue
+                if ga.startswith("S@") and gb.startswith("S@") and ga.split("@")[1] == gb.split("@")[1]:
+                    va, vb = h2f(ga.split("@")[2]), h2f(gb.split("@")[2])
+                    if va == vb or (va != va and vb != vb):
+                        continue    # equal as numbers (-0/+0, NaN)
+                bad.append((lines[ia], "PID stream and the controller assembled from the crate's own streams disagree after a present input: %s vs %s" % (ga, gb)))
+                break
         elif kind == "scale":
             for ta, tb in zip(A, B):
                 ga, gb = get_part(ta), get_part(tb)
